@@ -362,6 +362,47 @@ func init() {
 			fmt.Fprintf(&sb, "\n/-- does CommitFamilyEditLog take its snapshot and clone the version inside vs.mutex? -/\n")
 			fmt.Fprintf(&sb, "def commitCloneUnderLock : Bool := %v\n", ok)
 		}
+		// version.FindFiles: loop / guard / jump structure (every table of every level is tested; no
+		// break / continue / early return)
+		{
+			fd, err := need(ver, "version", "FindFiles")
+			if err != nil {
+				return "", err
+			}
+			var shape []string
+			var walk func(l []ast.Stmt)
+			walk = func(l []ast.Stmt) {
+				for _, st := range l {
+					switch x := st.(type) {
+					case *ast.RangeStmt:
+						shape = append(shape, "for-range:"+c02Text(x.X))
+						walk(x.Body.List)
+						shape = append(shape, "endfor")
+					case *ast.ForStmt:
+						shape = append(shape, "for")
+						walk(x.Body.List)
+						shape = append(shape, "endfor")
+					case *ast.IfStmt:
+						shape = append(shape, "if:"+c02Text(x.Cond))
+						walk(x.Body.List)
+						if x.Else != nil {
+							shape = append(shape, "else")
+						}
+						shape = append(shape, "endif")
+					case *ast.BranchStmt:
+						shape = append(shape, "jump:"+x.Tok.String())
+					case *ast.ReturnStmt:
+						shape = append(shape, "return")
+					case *ast.AssignStmt:
+						if c, ok := x.Rhs[0].(*ast.CallExpr); ok {
+							shape = append(shape, c02Text(x.Lhs[0])+"="+exprName(c.Fun))
+						}
+					}
+				}
+			}
+			walk(fd.Body.List)
+			def("findFilesShape", shape)
+		}
 		// snapshot.Close guard shape; newTableBuilder order; GetReader critical section
 		{
 			fd, err := need(snap, "snapshot", "Close")
